@@ -998,7 +998,7 @@ def stream_split(ctx):
         for i in fails[:5]:
             ctx.violation('obligation', dict(what='correspondence split_lines: model and parso.utils.split_lines differ (the text oracle agreed with parso)',
                                              stream='split', string=kept[i]), nofail=True)
-    return [Pending('split', 'split_ok', cases, shard_for(cases, 3), on_fail)]
+    return [Pending('split', 'split_ok', cases, shard_for(cases, ctx.n(2, 12)), on_fail)]
 
 
 def corpus_files():
@@ -1082,7 +1082,7 @@ def stream_corpus_windows(ctx):
         for i in fails[:5]:
             ctx.violation('obligation', dict(what='hypothesis `consistent` fails on a real parso tree: a recorded leaf position is not the position of its text (window of a corpus file)',
                                              stream='tree', window=metas[i]), nofail=True)
-    return [Pending('corpus windows', 'win_ok', cases, shard_for(cases, ctx.n(7, 64)), on_fail)]
+    return [Pending('corpus windows', 'win_ok', cases, shard_for(cases, ctx.n(3, 32)), on_fail)]
 
 
 def _corpus_names_task(task):
@@ -1352,7 +1352,7 @@ def stream_generated(ctx):
         meta, code, r, ov = items[0]
         ctx.sample(dict(stream='names', variant=meta['variant'], source_head=code[:160],
                         names=r['names'][(True, True, True)][:8]))
-    return [pending_sources(ctx, 'names', items, ctx.n(12, 64))]
+    return [pending_sources(ctx, 'names', items, ctx.n(6, 32))]
 
 
 def stream_api(ctx):
@@ -1424,7 +1424,7 @@ def stream_api(ctx):
         meta, code, r, ov = items[0]
         ex = [d for d in r['api'] if d['where'] in ('buffer', 'aux') and d['line']][:3]
         ctx.sample(dict(stream='api', variant=meta['variant'], results=[{k: d[k] for k in ('via', 'where', 'line', 'column', 'name', 'def_start', 'def_end')} for d in ex]))
-    return [pending_sources(ctx, 'api', items, ctx.n(10, 48))]
+    return [pending_sources(ctx, 'api', items, ctx.n(5, 16))]
 
 
 MATCH_SRC = '''def handle(command):
